@@ -5,7 +5,7 @@
    fresh.  This is the structural half of the "valid task list" premise of C01/C10 and the serial instance of C02's
    "no merge starts before both groups are complete". *)
 From Coq Require Import ZArith List Bool Lia Permutation Sorted.
-From KV Require Import Weave Kernels Pipeline CladeTasks.
+From KV Require Import Weave WeaveProofs Kernels Pipeline CladeTasks.
 Import ListNotations.
 
 Definition tc (x : nat * nat * nat) : nat := snd x.
@@ -208,4 +208,62 @@ Proof.
     eapply Permutation_trans; [apply root_kids_perm|].
     eapply Permutation_trans; [apply Hids|]. unfold lt at 1. rewrite label_leaves.
     apply Permutation_app_head. apply Permutation_map. apply Permutation_sym. exact HP.
+Qed.
+
+(* ---- the same in the vocabulary of the assembly proofs: the list of active groups (WeaveProofs.act_after) ---- *)
+Fixpoint sched_ok (act : list nat) (L : list (nat * nat * nat)) : Prop :=
+  match L with
+  | [] => True
+  | (a, b, c) :: rest => In a act /\ In b act /\ a <> b /\ ~ In c act /\ sched_ok (act_after act a b c) rest
+  end.
+Definition acts (n : nat) (pre : list (nat * nat * nat)) : list nat :=
+  fold_left (fun act x => act_after act (fst (fst x)) (snd (fst x)) (snd x)) pre (seq 0 n).
+
+Lemma acts_snoc n pre a b c : acts n (pre ++ [(a, b, c)]) = act_after (acts n pre) a b c.
+Proof. unfold acts. rewrite fold_left_app. reflexivity. Qed.
+
+Lemma acts_only n : forall pre x, In x (acts n pre) -> x < n \/ In x (map tc pre).
+Proof.
+  induction pre as [|[[a b] c] pre IH] using rev_ind; intros x Hx.
+  - left. unfold acts in Hx. cbn in Hx. apply in_seq in Hx. lia.
+  - rewrite acts_snoc in Hx. apply in_act_after in Hx as [->|(Hx & _ & _)].
+    + right. rewrite map_app. apply in_or_app. right. left. reflexivity.
+    + destruct (IH _ Hx) as [Q|Q]; [left; exact Q|right; rewrite map_app; apply in_or_app; left; exact Q].
+Qed.
+
+Lemma acts_in n : forall pre x, x < n \/ In x (map tc pre) -> ~ In x (kids pre) -> In x (acts n pre).
+Proof.
+  induction pre as [|[[a b] c] pre IH] using rev_ind; intros x Hx Hk.
+  - destruct Hx as [Hx|[]]. unfold acts. cbn. apply in_seq. lia.
+  - rewrite acts_snoc. apply in_act_after. rewrite kids_app in Hk. cbn in Hk.
+    destruct (Nat.eq_dec x c) as [->|Hxc]; [left; reflexivity|right].
+    assert (~ In x (kids pre) /\ x <> a /\ x <> b) as (K1 & K2 & K3).
+    { repeat split; intros Q; apply Hk; apply in_or_app; [left; exact Q|right; left; auto|right; right; left; auto]. }
+    split; [|split; assumption]. apply IH; [|exact K1].
+    destruct Hx as [Hx|Hx]; [left; exact Hx|right]. rewrite map_app in Hx. apply in_app_or in Hx as [Hx|[Hx|[]]]; [exact Hx|].
+    unfold tc in Hx. cbn in Hx. congruence.
+Qed.
+
+Theorem tree_schedule_ok : forall t n,
+  NoDup (leaves t) -> (forall i, In i (leaves t) -> i < n) ->
+  sched_ok (seq 0 n) (sort_tasks (tasks_of (fst (label t n)))).
+Proof.
+  intros t n Hnd Hlt.
+  pose proof (tree_schedule_respects_dependencies t n Hnd Hlt) as D.
+  set (L := sort_tasks (tasks_of (fst (label t n)))) in *.
+  assert (forall post pre, L = pre ++ post -> sched_ok (acts n pre) post) as G.
+  { induction post as [|[[a b] c] post IH]; intros pre E; [exact I|].
+    destruct (D pre a b c post E) as (Da & Db & Dab & Dc & Dpre).
+    assert (forall k, (k < n \/ exists k1 k2, In (k1, k2, k) pre) -> (forall x y z, In (x, y, z) pre -> x <> k /\ y <> k) -> In k (acts n pre)) as Hin.
+    { intros k Hk Hfresh. apply acts_in.
+      - destruct Hk as [Hk|(k1 & k2 & Hk)]; [left; exact Hk|right]. apply in_map_iff. exists (k1, k2, k). split; [reflexivity|exact Hk].
+      - unfold kids. intros Q. apply in_flat_map in Q as ([[x y] z] & Hx & Hq). destruct (Hfresh _ _ _ Hx) as (F1 & F2).
+        cbn in Hq. destruct Hq as [Q|[Q|[]]]; congruence. }
+    cbn [sched_ok]. split; [|split; [|split; [exact Dab|split]]].
+    - apply Hin; [exact Da|]. intros x y z Hx. destruct (Dpre _ _ _ Hx) as (_ & ? & _ & ? & _). split; assumption.
+    - apply Hin; [exact Db|]. intros x y z Hx. destruct (Dpre _ _ _ Hx) as (_ & _ & ? & _ & ?). split; assumption.
+    - intros Q. apply acts_only in Q as [Q|Q]; [lia|]. apply in_map_iff in Q as ([[x y] z] & Ez & Hx).
+      unfold tc in Ez. cbn in Ez. subst z. destruct (Dpre _ _ _ Hx) as (F & _). apply F. reflexivity.
+    - rewrite <- acts_snoc. apply IH. rewrite <- app_assoc. exact E. }
+  exact (G L [] eq_refl).
 Qed.
